@@ -54,9 +54,15 @@ static void show(JsonVariantConst v, string& o) {
     case VariantType::Null: o += "N"; break;
     case VariantType::Boolean: o += v.as<bool>() ? "T" : "F"; break;
     case VariantType::Uint32:
-    case VariantType::Uint64: snprintf(buf, 48, "U%llu", (unsigned long long)v.as<uint64_t>()); o += buf; break;
+#if ARDUINOJSON_USE_LONG_LONG
+    case VariantType::Uint64:
+#endif
+      snprintf(buf, 48, "U%llu", (unsigned long long)v.as<uint64_t>()); o += buf; break;
     case VariantType::Int32:
-    case VariantType::Int64: snprintf(buf, 48, "I%lld", (long long)v.as<int64_t>()); o += buf; break;
+#if ARDUINOJSON_USE_LONG_LONG
+    case VariantType::Int64:
+#endif
+      snprintf(buf, 48, "I%lld", (long long)v.as<int64_t>()); o += buf; break;
     case VariantType::Float: { float f = v.as<float>(); uint32_t b; memcpy(&b, &f, 4); snprintf(buf, 48, "f%08x", b); o += buf; break; }
 #if ARDUINOJSON_USE_DOUBLE
     case VariantType::Double: { double f = v.as<double>(); uint64_t b; memcpy(&b, &f, 8); snprintf(buf, 48, "d%016llx", (unsigned long long)b); o += buf; break; }
